@@ -14,7 +14,9 @@ def key_classes(rng):
            0xFFFFFFFF00000000 + rng.randrange(0, 2**32)]
     edge = [INT_MAX - k for k in (0, 1, 35, 36, 37, 38)] + [(rng.randrange(1, 2**31) << 32) | (INT_MAX - rng.randrange(0, 37))]
     rnd = [rng.randrange(0, U64) for _ in range(4)]
-    return {"null": [0], "chain": fam, "neg": neg, "intmax": edge, "rnd": rnd, "small": list(range(1, 8))}
+    lo = rng.randrange(0, 2**32)
+    hiword = [lo, lo + 2**32, lo + 2**33, lo | 2**63, (lo + 101) | 2**32, U64 - 2**32 + lo]   # equal low 32 bits (= equal `int`, same bucket), different pointers
+    return {"null": [0], "chain": fam, "neg": neg, "intmax": edge, "rnd": rnd, "small": list(range(1, 8)), "hiword": hiword}
 
 
 def gen_case(rng, chk, n):
@@ -24,6 +26,12 @@ def gen_case(rng, chk, n):
         pool += cls[name]
         chk.bump("keyclass:" + name)
     vals = [0, 1, 2, 3, rng.randrange(0, U64 - 1), rng.randrange(0, 2**32)]
+    vals += [vals[5] + 2**32, 3 + 2**32, 2**32, (1 << 8) | 7, (1 << 8) | 200, (3 << 8), (2**32 + 3) << 8]    # equal low words; words whose bits above the low 8 are 1 / 3 / 2^32+3 (lbvf)
+    oom = rng.choice([0, 0, 0.1, 0.4])                 # inserts / appends attempted while the allocator is out of memory
+    chk.bump("oom:%s" % oom)
+    two = rng.random() < 0.3                           # a second table is used alongside
+    if two:
+        chk.bump("tables:2")
     if rng.random() < 0.4:
         vals += [U64 - 1, U64 - 1]              # all-ones is a legal value although lookup uses it as the not-found marker
         chk.bump("value:all-ones")
@@ -31,8 +39,10 @@ def gen_case(rng, chk, n):
     for _ in range(n):
         r = rng.random()
         k = rng.choice(pool)
-        if r < 0.35:
-            ops.append("ins %d %d" % (k, rng.choice(vals)))
+        if two and rng.random() < 0.35:
+            ops.append(rng.choice(["ins2 %d %d" % (k, rng.choice(vals)), "ins2 %d %d" % (k, rng.choice(vals)), "rem2 %d" % k, "get2 %d" % k, "get2 %d" % k, "keys2", "vals2"]))
+        elif r < 0.35:
+            ops.append(("insf %d %d" if oom and rng.random() < oom else "ins %d %d") % (k, rng.choice(vals)))
         elif r < 0.55:
             ops.append("rem %d" % k)
         elif r < 0.75:
@@ -41,21 +51,27 @@ def gen_case(rng, chk, n):
             ops.append("keys")
         elif r < 0.84:
             ops.append("vals")
-        elif r < 0.88:
+        elif r < 0.865:
             ops.append("lbv %d" % rng.choice(vals))
+        elif r < 0.88:
+            ops.append("lbvf %d" % rng.choice([1, 3, 0, 2**32 + 3, rng.choice(vals) >> 8, rng.choice(vals)]))
         elif r < 0.92:
-            ops.append("lapp %d" % rng.choice(vals))
+            ops.append(("lappf %d" if oom and rng.random() < oom else "lapp %d") % rng.choice(vals))
         elif r < 0.94:
-            ops.append("lpre %d" % rng.choice(vals))
+            ops.append(("lpref %d" if oom and rng.random() < oom else "lpre %d") % rng.choice(vals))
         elif r < 0.96:
             ops.append("lrem %d" % rng.choice(vals))
         elif r < 0.97:
             ops.append("lrev")
-        elif r < 0.985:
+        elif r < 0.98:
             ops.append("llast")
+        elif r < 0.988:
+            ops.append("leach")
+        elif r < 0.992:
+            ops.append(rng.choice(["api", "lfree"]))
         else:
             ops.append("llen")
-    ops += ["keys", "vals", "llen", "llast"]
+    ops += ["keys", "vals", "llen", "llast", "leach"] + (["keys2", "vals2"] if two else [])
     return ops
 
 
@@ -67,10 +83,53 @@ def exhaustive_small(depth):
         yield list(seq) + ["get 5", "get 106", "get 207", "keys", "vals"]
 
 
-def list_exhaustive(depth):
-    alphabet = ["lapp 1", "lapp 2", "lpre 3", "lrem 1", "lrem 2", "lrev", "llast", "llen"]
+def exhaustive_hiword(depth):
+    """the same over keys and values that differ only above bit 31 (one `int`, one bucket, different pointers)"""
+    H = 2**32
+    keys = [5, 5 + H, 106]
+    alphabet = ["ins %d %d" % (k, v) for k in keys for v in (1, 1 + H)] + ["rem %d" % k for k in keys] + ["get %d" % k for k in keys]
     for seq in itertools.product(alphabet, repeat=depth):
-        yield list(seq) + ["llen", "llast"]
+        yield list(seq) + ["get 5", "get %d" % (5 + H), "keys", "vals", "lbv 1", "lbv %d" % (1 + H)]
+
+
+def list_exhaustive(depth):
+    alphabet = ["lapp 1", "lapp 2", "lpre 3", "lrem 1", "lrem 2", "lrev", "llast", "llen", "lapp %d" % (1 + 2**32), "lappf 4"]
+    for seq in itertools.product(alphabet, repeat=depth):
+        yield list(seq) + ["llen", "llast", "leach"]
+
+
+def extra_cases():
+    """directed cases: lookup by value through a compare function; p_list_foreach; allocation failure inside insert /
+    append / prepend (empty bucket, occupied bucket, key present); two tables side by side; NULL arguments; every bucket"""
+    H = 2**32
+    out = []
+    # compare function: stored values 0x1xx / 0x3xx, asked 1 / 3 / the stored word itself (not a match: not symmetric)
+    for pre in ([], ["ins 5 1", "ins 106 2"]):
+        out.append(pre + ["ins 7 %d" % ((1 << 8) | 9), "ins 108 %d" % ((1 << 8) | 200), "ins 9 %d" % (3 << 8), "ins 0 1", "ins 1 0", "ins 2 256",
+                          "lbvf 1", "lbvf 3", "lbvf 0", "lbvf %d" % ((1 << 8) | 9), "lbvf 256", "lbv 256", "lbv 1",
+                          "rem 7", "lbvf 1", "ins 108 %d" % (3 << 8), "lbvf 1", "lbvf 3", "ins 11 %d" % ((H + 3) << 8), "lbvf %d" % (H + 3), "lbvf 3"])
+    # list: foreach after every kind of change
+    out.append(["leach", "lapp 1", "leach", "lapp 2", "lpre 3", "leach", "lrev", "leach", "lrem 1", "leach", "lapp 0", "lapp %d" % (U64 - 1), "leach", "lfree", "leach", "lapp 4", "leach", "llen"])
+    out.append(["lapp %d" % x for x in (1, 1 + H, 1 + 2 * H, 1)] + ["lrem %d" % (1 + H), "leach", "lrem %d" % (1 + 2 * H), "leach", "lrem 1", "lrem 1", "leach", "llen", "llast"])
+    # allocation failure: new key into an empty bucket, into a chain (head, after removal), existing key (overwrite), with NULL / all-ones
+    for k in (5, 106, 0, U64 - 1):
+        for pre in ([], ["ins 5 1"], ["ins 5 1", "ins 106 2", "ins 207 3"], ["ins 207 3", "ins 106 2", "ins 5 1", "rem 106"]):
+            out.append(pre + ["insf %d 9" % k, "get %d" % k, "get 5", "get 106", "get 207", "keys", "vals", "ins %d 8" % k, "insf %d 7" % k, "get %d" % k, "keys", "vals",
+                              "rem %d" % k, "insf %d 6" % k, "keys", "vals", "get 5"])
+    for pre in ([], ["lapp 1"], ["lapp 1", "lapp 2", "lpre 3"]):
+        out.append(pre + ["lappf 9", "llen", "llast", "leach", "lpref 8", "llen", "leach", "lapp 9", "lpre 8", "lappf 7", "lpref 6", "lrev", "leach", "llen"])
+    # two tables: same keys, different content; removal / overwrite in one does not show in the other
+    out.append(["ins 5 1", "ins2 5 2", "get 5", "get2 5", "ins2 106 3", "get 106", "keys", "keys2", "rem 5", "get2 5", "get 5", "rem2 5", "rem2 106", "keys2", "vals2", "ins 106 4",
+                "get2 106", "vals", "ins2 0 0", "get 0", "get2 0", "rem2 0", "get2 0"])
+    out.append(["ins %d 1" % k for k in (5, 106, 207, 308)] + ["get 5"] + ["ins2 %d 2" % k for k in (5, 106, 207, 308)] + ["get2 5", "get 5", "rem 5", "get 5", "get2 5", "ins 5 3", "get 5", "get2 5", "rem2 5", "get2 5", "get 5"])
+    out.append(["api", "ins 1 1", "lapp 1", "api", "get 1", "keys", "llen", "leach", "lfree", "api", "llen"])
+    # a list / a chain longer than anything the random op files build (counts, walks and reversal of 150 nodes; 60 keys in one bucket)
+    out.append(["lapp %d" % (i % 7) for i in range(150)] + ["llen", "llast", "leach", "lrev", "llen", "leach", "lrem 3", "llen", "lpre 9", "llast", "llen", "lfree", "llen"])
+    out.append(["ins %d %d" % (5 + 101 * i, i) for i in range(60)] + ["keys", "vals", "get %d" % (5 + 101 * 59), "get 5", "rem %d" % (5 + 101 * 30), "rem 5", "rem %d" % (5 + 101 * 59), "keys", "lbv 30", "lbv 31"])
+    # every bucket once, then twice (keys 0..201), low word wrapping through the addend
+    out.append(["ins %d %d" % (k, k) for k in range(0, 202)] + ["keys", "vals"] + ["rem %d" % k for k in range(0, 202, 2)] + ["keys", "get 63", "get 64", "get 164", "get 165"])
+    out.append(["ins %d 1" % k for k in range(2**32 - 40, 2**32 + 1)] + ["keys"] + ["get %d" % k for k in range(2**32 - 40, 2**32 + 1)])
+    return out
 
 
 def marker_cases():
@@ -88,7 +147,7 @@ def marker_cases():
 def spec_view(op, line):
     """the spec says *which* keys/values are listed, not in which order"""
     o = op.split()[0] if op else ""
-    if o in ("keys", "vals", "lbv") and line.startswith("["):
+    if o in ("keys", "vals", "lbv", "lbvf", "keys2", "vals2") and line.startswith("["):
         return "[" + " ".join(sorted(line.strip("[]").split(), key=int)) + "]"
     return line
 
@@ -108,7 +167,7 @@ def run(chk):
     fam = diffrun.Family("ht", exe, spec_view=spec_view)
     thorough = chk.tier == "thorough"
     rng = chk.rng
-    cases = marker_cases()
+    cases = marker_cases() + extra_cases()
     # corpus first
     cases += pv.load_corpus("C15")
     # direct probes of the hash arithmetic: every INT_MAX-adjacent low word, sign boundaries
@@ -119,18 +178,19 @@ def run(chk):
             probes.append(["ins %d 7" % k, "get %d" % k, "rem %d" % k, "get %d" % k])
     cases += probes
     ex_depth = 4 if thorough else 3
-    ex = list(exhaustive_small(ex_depth)) + list(list_exhaustive(5 if thorough else 4))
+    ex = list(exhaustive_small(ex_depth)) + list(exhaustive_hiword(ex_depth)) + list(list_exhaustive(5 if thorough else 4))
     chk.cov["exhaustive_small_scope"] = {"ht_depth": ex_depth, "sequences": len(ex)}
     nrand = 3000 if thorough else 400
     rnd = [gen_case(rng, chk, rng.choice([5, 20, 60, 200])) for _ in range(nrand)]
     found, corr, thm = diffrun.campaign(chk, fam, cases + ex + rnd, proof_ok, detail, signature_of, "C15", batch=100)
     diffrun.conclude(chk, found, corr, thm, proof_ok and driver_ok, detail, "C15 hash table/list")
-    chk.cov["rule"] = ("op files over key classes (NULL, one-bucket families, negative low words, INT_MAX-adjacent low words, random 64-bit); "
+    chk.cov["rule"] = ("op files over key classes (NULL, one-bucket families, negative low words, INT_MAX-adjacent low words, keys / values / list data equal in the low 32 bits, random 64-bit); "
+                       "lookup by value with and without a compare function, p_list_foreach, inserts / appends under allocation failure, two tables side by side, NULL-argument entry points; "
                        "exhaustive sequences of length %d over 4 keys (3 colliding) and list sequences; a case is distinct by the hash of its op file, "
                        "non-trivial when it has more than one op" % ex_depth)
     chk.cov["exhaustive"] = False
     chk.assumptions += ["x86-64: int 32 bit, pointers 64 bit", "a stored value equal to (ppointer)-1 reads as not-found through p_hash_table_lookup (documented marker); keys/values/lookup_by_value tell them apart and are compared",
-                        "allocation never fails in this check (C18 covers failure)"]
+                        "a failed node allocation is modelled for insert / append / prepend only (one-shot; C18 covers every other site)"]
     return chk.finish()
 
 
